@@ -157,7 +157,7 @@ func (r *Run) Report(sig, what string, replay any, observed, expected string) {
 	r.mu.Lock()
 	defer r.mu.Unlock()
 	for _, k := range r.known {
-		if k.Signature == sig {
+		if sigMatch(k.Signature, sig) {
 			r.knownHits[k.ID]++
 			if _, ok := r.knownFirst[k.ID]; !ok {
 				r.knownFirst[k.ID] = what
@@ -252,7 +252,7 @@ func (r *Run) Finish() {
 	for _, id := range ids {
 		for _, k := range r.known {
 			if k.ID == id {
-				fmt.Printf("KNOWN-FINDING: property=%s %s %s (%d cases; first: %s)\n", r.ID, k.ID, k.What, r.knownHits[id], clip(r.knownFirst[id], 160))
+				fmt.Printf("KNOWN-FINDING: property=%s %s %s (%d cases; first: %s)\n", r.ID, k.ID, k.What, r.knownHits[id], clip(oneLine(r.knownFirst[id]), 200))
 			}
 		}
 	}
@@ -337,4 +337,40 @@ func ReadReplay(path string, v any) error {
 		return err
 	}
 	return json.Unmarshal(w.Input, v)
+}
+
+// sigMatch compares a known-finding signature with a reported one; the known
+// signature may contain one '*' standing for any text without ':' (one field).
+func sigMatch(pattern, sig string) bool {
+	i := -1
+	for k := 0; k < len(pattern); k++ {
+		if pattern[k] == '*' {
+			i = k
+			break
+		}
+	}
+	if i < 0 {
+		return pattern == sig
+	}
+	pre, suf := pattern[:i], pattern[i+1:]
+	if len(sig) < len(pre)+len(suf) || sig[:len(pre)] != pre || sig[len(sig)-len(suf):] != suf {
+		return false
+	}
+	mid := sig[len(pre) : len(sig)-len(suf)]
+	for k := 0; k < len(mid); k++ {
+		if mid[k] == ':' {
+			return false
+		}
+	}
+	return true
+}
+
+func oneLine(s string) string {
+	b := []byte(s)
+	for i, c := range b {
+		if c == '\n' {
+			b[i] = ' '
+		}
+	}
+	return string(b)
 }
